@@ -155,6 +155,49 @@ Theorem C15_concurrent_connections_independent : forall l i k parses reply,
   copy_model k (arrive_all (fun _ => []) l i) reply = copy_model k (own i l) reply.
 Proof. exact concurrent_raw_no_interference. Qed.
 
+(* ---- both directions, with half-close (copy over a stream; ssh channels) ---- *)
+
+(* for every schedule of writes and ends of direction, and every relay policy: exactly what
+   was written before the relay stops is delivered, in both directions ... *)
+Theorem C15_duplex_delivers_until_stop : forall p q l,
+  d_up (duplex_run p q l) = ups (before_stop p q l) /\ d_down (duplex_run p q l) = downs (before_stop p q l).
+Proof. exact duplex_spec. Qed.
+
+(* ... hence never anything but a prefix of what was written *)
+Theorem C15_duplex_delivers_prefix : forall p q l,
+  (exists x, ups l = d_up (duplex_run p q l) ++ x) /\ (exists y, downs l = d_down (duplex_run p q l) ++ y).
+Proof. exact duplex_prefix. Qed.
+
+(* copy: whatever the schedule - in particular when the client ends its direction first and
+   the backend answers only afterwards, late, at length - the client receives everything
+   the backend wrote (the backend writes nothing after its own end of direction) *)
+Theorem C15_copy_reply_survives_client_half_close : forall l,
+  b_quiet_after_eof l -> d_down (copy_duplex l) = downs l.
+Proof. exact copy_down_complete. Qed.
+
+(* copy: the client's end of direction reaches the backend and the relay goes on *)
+Theorem C15_copy_forwards_half_close : forall pre,
+  d_alive (fold_left (dstep false true) pre dst0) = true ->
+  let s := fold_left (dstep false true) (pre ++ [DCEof]) dst0 in d_alive s = true /\ d_beof s = true.
+Proof. exact copy_forwards_half_close. Qed.
+
+(* copy: the backend receives everything the client wrote, provided the client has written
+   it before the backend ends its direction ... *)
+Theorem C15_copy_request_complete_before_backend_end : forall l,
+  c_done_before_beof l -> d_up (copy_duplex l) = ups l.
+Proof. exact copy_up_complete. Qed.
+
+(* ... defects of the unchanged code: copy stops when the backend's direction ends, cutting
+   a client that is still sending; ssh-proxy stops at the FIRST end of direction, so the
+   backend's output after the client's end of input is lost *)
+Theorem C15_copy_client_data_after_backend_end_refuted :
+  exists l, b_quiet_after_eof l /\ d_up (copy_duplex l) <> ups l.
+Proof. exact copy_client_data_after_backend_eof_refuted. Qed.
+
+Theorem C15_ssh_half_close_refuted :
+  exists l, b_quiet_after_eof l /\ d_down (ssh_duplex l) <> downs l.
+Proof. exact ssh_half_close_refuted. Qed.
+
 (* ---- ssh-proxy (message level) ---- *)
 
 (* credentials reach the backend as presented, attempt by attempt, up to and including
@@ -228,3 +271,10 @@ Print Assumptions C15_ssh_relay_order.
 Print Assumptions C15_ssh_cross_order_not_kept.
 Print Assumptions C15_ssh_close_delivers_all.
 Print Assumptions C15_concurrent_connections_independent.
+Print Assumptions C15_duplex_delivers_until_stop.
+Print Assumptions C15_duplex_delivers_prefix.
+Print Assumptions C15_copy_reply_survives_client_half_close.
+Print Assumptions C15_copy_forwards_half_close.
+Print Assumptions C15_copy_request_complete_before_backend_end.
+Print Assumptions C15_copy_client_data_after_backend_end_refuted.
+Print Assumptions C15_ssh_half_close_refuted.
